@@ -164,6 +164,20 @@ def handle : List String → String
       | .ok l => "ok " ++ joinComma (l.map toString)
       | .error _ => "err count"
     | _, _ => "bad-op"
+  | ["cb.roundtrip", prefilled, blk, pool, table] =>
+    -- announce `blk` (wtxid tags) with `prefilled` positions under the short-id table `tag:sid,…`, reconstruct
+    -- against `pool`, ask for the missing indexes, fill with the block's own transactions
+    let table? := (splitComma table).mapM fun s =>
+      match s.splitOn ":" with
+      | [a, b] => do let x ← a.toNat?; let y ← b.toNat?; pure (x, y)
+      | _ => none
+    match natList? prefilled, natList? blk, natList? pool, table? with
+    | some pre, some blk, some pool, some table =>
+      match CompactBlocks.roundTrip (fun w => (table.lookup w).getD 0) blk pre pool with
+      | .ok (missing, b) => s!"ok {joinComma (missing.map toString)} {joinComma (b.map toString)}"
+      | .error (.reconstruct e) => s!"err {e.name}"
+      | .error .fill => "err count"
+    | _, _, _, _ => "bad-op"
   | ["cb.key", header, nonce] =>
     -- `CmpctBlock.short_id_key`: sha256(header ‖ nonce LE64), first two LE 64-bit words
     match fromHex? header, nonce.toNat? with
